@@ -32,7 +32,10 @@ pub fn strip_ticks(forms: &[Form]) -> Vec<Form> {
 
 fn display_form(ch: &mut Chooser, k: usize) -> Vec<Form> {
     let q = |d: Datum| Expr::Quote(d);
-    let e = match ch.below(10) {
+    let e = match ch.below(13) {
+        10 => Expr::RawStr(ch.pick_s(&["name:  \nvalue", "a\t\nb", "line one \n\n  line three", "ends with blank \n"]).to_string()),
+        11 => Expr::RawStr(ch.pick_s(&["two\nlines", "tab\there", "x \n y \n z"]).to_string()),
+        12 => app("list", vec![Expr::RawStr("in a list \nsecond".into()), Expr::Int(1)]),
         0 => Expr::Int(ch.range(-50, 500) as i32),
         1 => Expr::Str(ch.pick_s(&["hello", "a b", "", "(paren)", "semi;colon", "tab\there"]).to_string()),
         2 => q(Datum::Sym(ch.pick_s(&["foo", "bar", "x->y"]).to_string())),
